@@ -1,8 +1,303 @@
-//! C05 — not built yet (stub).
+//! C05 — loops visit exactly the selected elements, with truthful loop metadata.
+//!
+//! non-trivial rule: the loop's source collection is non-empty (the window selection, the loop
+//! fields or the interrupt handling are actually exercised).
+use super::common::{run_case, Case};
 use crate::ctx::Ctx;
+use crate::gen::ast::*;
+use crate::rng::Rng;
+use crate::val::{arr, obj, s, RVal};
 
-pub fn run(_ctx: &mut Ctx) {}
+fn v(name: &str) -> Expr {
+    Expr::var(name)
+}
+fn field(obj_name: &str, f: &str) -> Node {
+    Node::Out(Expr::Var(Path::name(obj_name).dot(f)), vec![])
+}
+fn t(x: &str) -> Node {
+    Node::Text(x.to_string())
+}
 
-pub fn replay(_j: &serde_json::Value) -> bool {
-    false
+/// body printing the item and every loop field between separators
+fn body(loopobj: &str, item: Node, with_cols: bool) -> Vec<Node> {
+    let mut b = vec![t("["), item, t("|")];
+    for f in ["index", "index0", "rindex", "rindex0", "first", "last", "length"] {
+        b.push(field(loopobj, f));
+        b.push(t(","));
+    }
+    if with_cols {
+        for f in ["col", "col0", "col_first", "col_last"] {
+            b.push(field(loopobj, f));
+            b.push(t(","));
+        }
+    }
+    b.push(t("]"));
+    b
+}
+
+fn opt_exprs() -> Vec<Option<i64>> {
+    let mut v = vec![None];
+    v.extend((0..=8).map(Some));
+    v
+}
+
+#[derive(Clone, Copy, Debug)]
+enum Kind {
+    ArrayVar,
+    LiteralRange,
+    VarRange,
+    DescendingRange,
+    Object,
+    NilVar,
+}
+
+fn collection(kind: Kind, len: usize) -> Option<(Coll, RVal, bool)> {
+    // returns (collection expression, data, items_are_pairs)
+    let data_arr = arr((0..len).map(|i| RVal::Int(10 + i as i64)).collect());
+    Some(match kind {
+        Kind::ArrayVar => (Coll::Expr(v("a")), obj(vec![("a", data_arr)]), false),
+        Kind::LiteralRange => (Coll::Range(Expr::int(1), Expr::int(len as i64)), obj(vec![]), false),
+        Kind::VarRange => (Coll::Range(v("lo"), v("hi")), obj(vec![("lo", RVal::Int(3)), ("hi", RVal::Int(2 + len as i64))]), false),
+        Kind::DescendingRange => {
+            if len > 2 {
+                return None;
+            }
+            (Coll::Range(Expr::int(5), Expr::int(4 - len as i64)), obj(vec![]), false)
+        }
+        Kind::Object => {
+            if len > 1 {
+                return None;
+            }
+            let o = if len == 0 { obj(vec![]) } else { obj(vec![("k", s("v"))]) };
+            (Coll::Expr(v("a")), obj(vec![("a", o)]), true)
+        }
+        Kind::NilVar => {
+            if len > 0 {
+                return None;
+            }
+            (Coll::Expr(v("a")), obj(vec![("a", RVal::Nil)]), false)
+        }
+    })
+}
+
+fn item_node(pairs: bool) -> Node {
+    if pairs {
+        // objects iterate as [key, value] pairs
+        Node::Out(Expr::Var(Path { root: "i".into(), segs: vec![Seg::Lit(RVal::Int(0))] }), vec![FilterCall { name: "append".into(), args: vec![Expr::Var(Path { root: "i".into(), segs: vec![Seg::Lit(RVal::Int(1))] })] }])
+    } else {
+        Node::Out(v("i"), vec![])
+    }
+}
+
+fn windows(ctx: &mut Ctx) {
+    let kinds = [Kind::ArrayVar, Kind::LiteralRange, Kind::VarRange, Kind::DescendingRange, Kind::Object, Kind::NilVar];
+    for kind in kinds {
+        for len in 0..=6usize {
+            let Some((coll, data, pairs)) = collection(kind, len) else { continue };
+            for off in opt_exprs() {
+                for lim in opt_exprs() {
+                    // limit/offset as literals and through variables
+                    for via_var in [false, true] {
+                        let mut data = data.clone();
+                        let mk = |name: &str, x: Option<i64>, data: &mut RVal| -> Option<Expr> {
+                            x.map(|n| {
+                                if via_var {
+                                    if let RVal::Object(kv) = data {
+                                        kv.push((name.to_string(), RVal::Int(n)));
+                                    }
+                                    v(name)
+                                } else {
+                                    Expr::int(n)
+                                }
+                            })
+                        };
+                        let offset = mk("off", off, &mut data);
+                        let limit = mk("lim", lim, &mut data);
+                        if via_var && off.is_none() && lim.is_none() {
+                            continue;
+                        }
+                        for reversed in [false, true] {
+                            let main = vec![
+                                Node::For {
+                                    var: "i".into(),
+                                    coll: coll.clone(),
+                                    limit: limit.clone(),
+                                    offset: offset.clone(),
+                                    reversed,
+                                    body: body("forloop", item_node(pairs), false),
+                                    else_: Some(vec![t("E")]),
+                                },
+                                t("."),
+                            ];
+                            let c = Case { main: &main, partials: &[], data: &data, family: "for-window", strip_newlines: false, style_seed: (len * 31 + reversed as usize) as u64 };
+                            run_case(ctx, &c, len > 0);
+                        }
+                        // tablerow with cols absent / 1..4
+                        for cols in [None, Some(1), Some(2), Some(3), Some(4)] {
+                            let main = vec![
+                                Node::TableRow {
+                                    var: "i".into(),
+                                    coll: coll.clone(),
+                                    cols: cols.map(Expr::int),
+                                    limit: limit.clone(),
+                                    offset: offset.clone(),
+                                    body: body("tablerow", item_node(pairs), true),
+                                },
+                                t("."),
+                            ];
+                            let c = Case { main: &main, partials: &[], data: &data, family: "tablerow-window", strip_newlines: true, style_seed: (len * 7) as u64 };
+                            run_case(ctx, &c, len > 0);
+                        }
+                    }
+                }
+            }
+        }
+    }
+}
+
+fn interrupts(ctx: &mut Ctx) {
+    for la in 0..=4usize {
+        for lb in 0..=4usize {
+            let data = obj(vec![
+                ("a", arr((0..la).map(|i| RVal::Int(i as i64)).collect())),
+                ("b", arr((0..lb).map(|i| s(&format!("s{i}"))).collect())),
+            ]);
+            for k1 in 0..=5i64 {
+                for op1 in [Node::Break, Node::Continue] {
+                    for k2 in 0..=5i64 {
+                        for op2 in [Node::Break, Node::Continue] {
+                            for outer_first in [true, false] {
+                                let guard = |k: i64, op: &Node| Node::If {
+                                    arms: vec![(Cond::atom(Atom::Cmp(Expr::Var(Path::name("forloop").dot("index")), Op::Eq, Expr::int(k))), vec![op.clone()])],
+                                    else_: None,
+                                };
+                                let inner = Node::For {
+                                    var: "j".into(),
+                                    coll: Coll::Expr(v("b")),
+                                    limit: None,
+                                    offset: None,
+                                    reversed: false,
+                                    body: vec![
+                                        t("("),
+                                        Node::Out(Expr::Var(Path::name("forloop").dot("parentloop").dot("index")), vec![]),
+                                        t("."),
+                                        field("forloop", "index"),
+                                        guard(k2, &op2),
+                                        t(":"),
+                                        Node::Out(v("j"), vec![]),
+                                        Node::Out(Expr::Var(Path::name("forloop").dot("parentloop").dot("length")), vec![]),
+                                        t(")"),
+                                    ],
+                                    else_: Some(vec![t("e")]),
+                                };
+                                let mut ob = vec![t("<"), field("forloop", "index")];
+                                if outer_first {
+                                    ob.push(guard(k1, &op1));
+                                    ob.push(inner);
+                                } else {
+                                    ob.push(inner);
+                                    ob.push(guard(k1, &op1));
+                                }
+                                ob.push(t(">"));
+                                let main = vec![
+                                    Node::For { var: "i".into(), coll: Coll::Expr(v("a")), limit: None, offset: None, reversed: false, body: ob, else_: Some(vec![t("E")]) },
+                                    t("!"),
+                                    // the loop variables are gone, and nothing is pending
+                                    Node::If { arms: vec![(Cond::atom(Atom::Truthy(v("i"))), vec![t("leak-i")]), (Cond::atom(Atom::Truthy(v("forloop"))), vec![t("leak-forloop")])], else_: Some(vec![t("ok")]) },
+                                ];
+                                let c = Case { main: &main, partials: &[], data: &data, family: "break-continue", strip_newlines: false, style_seed: (k1 * 13 + k2) as u64 };
+                                run_case(ctx, &c, la > 0);
+                            }
+                        }
+                    }
+                }
+            }
+        }
+    }
+}
+
+fn random_loops(ctx: &mut Ctx) {
+    let n = ctx.scale(40_000u64, 1_000_000u64);
+    let rng = ctx.rng("c05-random");
+    for i in 0..n {
+        let mut r = rng.fork(i);
+        let (main, data) = gen_nest(&mut r);
+        let c = Case { main: &main, partials: &[], data: &data, family: "random-nested-loops", strip_newlines: true, style_seed: r.next() };
+        run_case(ctx, &c, true);
+    }
+}
+
+fn gen_nest(r: &mut Rng) -> (Vec<Node>, RVal) {
+    let la = r.below(41);
+    let data = obj(vec![
+        ("a", arr((0..la).map(|i| RVal::Int(i as i64 * 3 % 17)).collect())),
+        ("b", arr((0..r.below(6)).map(|i| s(&format!("b{i}"))).collect())),
+        ("n", RVal::Int(r.range(0, 6))),
+        ("m", RVal::Int(r.range(0, 12))),
+        ("o", obj(vec![("only", RVal::Int(7))])),
+    ]);
+    (vec![gen_loop(r, 0), t("$")], data)
+}
+
+fn gen_loop(r: &mut Rng, depth: usize) -> Node {
+    let var = ["i", "j", "k"][depth.min(2)].to_string();
+    let coll = match r.below(7) {
+        0 => Coll::Range(Expr::int(r.range(-2, 3)), v("n")),
+        1 => Coll::Range(v("n"), v("m")),
+        2 => Coll::Expr(v("b")),
+        3 => Coll::Expr(v("o")),
+        4 => Coll::Range(Expr::int(1), Expr::int(r.range(0, 5))),
+        _ => Coll::Expr(v("a")),
+    };
+    let pairs = matches!(&coll, Coll::Expr(Expr::Var(p)) if p.root == "o");
+    let limit = if r.chance(1, 2) { Some(if r.chance(1, 3) { v("n") } else { Expr::int(r.range(0, 45)) }) } else { None };
+    let offset = if r.chance(1, 2) { Some(if r.chance(1, 3) { v("n") } else { Expr::int(r.range(0, 45)) }) } else { None };
+    if depth < 2 && r.chance(1, 6) {
+        // tablerow (no interrupts inside)
+        return Node::TableRow {
+            var,
+            coll,
+            cols: if r.chance(1, 2) { Some(Expr::int(r.range(1, 5))) } else { None },
+            limit,
+            offset,
+            body: body("tablerow", item_node(pairs), true),
+        };
+    }
+    let mut b = body("forloop", item_node_named(&var, pairs), false);
+    if depth > 0 {
+        b.push(Node::Out(Expr::Var(Path::name("forloop").dot("parentloop").dot("index")), vec![]));
+        b.push(Node::Out(Expr::Var(Path::name("forloop").dot("parentloop").dot("rindex0")), vec![]));
+    }
+    if r.chance(1, 3) {
+        let k = r.range(1, 6);
+        let op = if r.chance(1, 2) { Node::Break } else { Node::Continue };
+        b.insert(
+            r.below(b.len()),
+            Node::If { arms: vec![(Cond::atom(Atom::Cmp(Expr::Var(Path::name("forloop").dot("index")), *r.pick(&[Op::Eq, Op::Gt, Op::Ge]), Expr::int(k))), vec![op])], else_: None },
+        );
+    }
+    if depth < 2 && r.chance(1, 2) {
+        let pos = r.below(b.len());
+        b.insert(pos, gen_loop(r, depth + 1));
+    }
+    Node::For { var, coll, limit, offset, reversed: r.chance(1, 3), body: b, else_: if r.chance(1, 2) { Some(vec![t("E")]) } else { None } }
+}
+
+fn item_node_named(var: &str, pairs: bool) -> Node {
+    if pairs {
+        Node::Out(Expr::Var(Path { root: var.into(), segs: vec![Seg::Lit(RVal::Int(0))] }), vec![])
+    } else {
+        Node::Out(v(var), vec![])
+    }
+}
+
+pub fn run(ctx: &mut Ctx) {
+    ctx.start_watchdog(120);
+    windows(ctx);
+    interrupts(ctx);
+    random_loops(ctx);
+}
+
+pub fn replay(j: &serde_json::Value) -> bool {
+    super::common::replay_program(j)
 }
